@@ -14,7 +14,8 @@ Inductive pub :=
 | PDelete (id : bstr)
 | PValidators.
 
-Record node := mkNode { n_chain : list block; n_cs : cstore; n_finalized : N; n_emitted : list pub }.
+(* n_app: state root the application last committed (ABI Commit), a trace a rejected block must not leave either *)
+Record node := mkNode { n_chain : list block; n_cs : cstore; n_finalized : N; n_emitted : list pub; n_app : bstr }.
 
 Inductive outcome := Accepted | Rejected (r : rule) | NoTip.
 
@@ -76,7 +77,8 @@ Definition commit_block (s : node) (b : block) (x : xenv) : node :=
          (n_emitted s
           ++ (if raise then [PFinalize (n_finalized s) (xe_post_precommit x) (h_id h)] else [])
           ++ [PNew (h_id h) (xe_nevents x)]
-          ++ (if xe_params_changed x then [PValidators] else [])).
+          ++ (if xe_params_changed x then [PValidators] else []))
+         (h_stateroot h).                 (* ABI Commit is the last check: it happens only when the block is accepted *)
 
 Definition process_validated (s : node) (b : block) (v : venv) (x : xenv) : outcome * node :=
   match tip_header s with
@@ -116,7 +118,8 @@ Definition delete_tip (s : node) (d : denv) : del_outcome * node :=
     else if negb (de_abi_revert_ok d) then (DelError, s)
     else match rest with
          | [] => (DelError, s)                                 (* genesis block cannot be removed *)
-         | _ => (Deleted, mkNode (rev rest) (de_prev_cs d) (n_finalized s) (n_emitted s ++ [PDelete (h_id (b_header t))]))
+         | p :: _ => (Deleted, mkNode (rev rest) (de_prev_cs d) (n_finalized s) (n_emitted s ++ [PDelete (h_id (b_header t))])
+                                      (h_stateroot (b_header p)))      (* ABI Revert to the previous block's state root *)
          end
   end.
 
@@ -171,6 +174,15 @@ Definition assigned_generator (v : venv) (h : header) : Prop :=
   ve_gen_lookup_ok v = true /\
   nth_error (ve_generators v) (N.to_nat (slot_of v (h_timestamp h) mod N.of_nat (length (ve_generators v)))) = Some (h_gen h).
 
+(* "a valid aggregate commit": empty at the last certified height, or a genuine one strictly above it, not above the
+   precommitted height, below the next change of BFT parameters, whose weighted BLS aggregate verifies *)
+Definition valid_aggregate_commit (h : header) (v : venv) : Prop :=
+  (b_len (h_agg_bits h) = 0 /\ b_len (h_agg_sig h) = 0 /\ h_agg_height h = ve_mh_cert v) \/
+  (b_len (h_agg_bits h) <> 0 /\ b_len (h_agg_sig h) <> 0 /\
+   ve_mh_cert v < h_agg_height h /\ h_agg_height h <= ve_mh_precommit v /\
+   (forall np, ve_next_params v = Some np -> h_agg_height h <= sub32 np 1) /\
+   ve_agg_lookup_ok v = true /\ ve_agg_bls_ok v = true).
+
 Definition execution_ok (b : block) (x : xenv) : Prop :=
   xe_abi_init_ok x = true /\ xe_abi_verify_assets_ok x = true /\ xe_bft_ok x = true /\ xe_abi_before_ok x = true /\
   Forall (fun a => fst a = true /\ snd a = true) (firstn (length (b_txs b)) (xe_tx x)) /\
@@ -187,7 +199,7 @@ Definition valid_block (tip : header) (b : block) (p : payload_env) (v : venv) (
   (* its signature, this chain ID *) ve_sig_ok v = true /\
   (* maxHeightPrevoted *)            h_mhp h = ve_node_mhp v /\
   (* no contradiction *)             ve_contradicting v = false /\
-  (* aggregate commit *)             ve_agg_ok v = true /\
+  (* aggregate commit *)             valid_aggregate_commit h v /\
   (* roots match the content *)      h_txroot h = pe_txroot p /\ h_assetroot h = pe_assetroot p /\
                                      strictly_sorted (map as_module (b_assets b)) = true /\
   (* ... and the execution result *) h_eventroot h = xe_eventroot x /\ h_vhash h = xe_post_vhash x /\ execution_ok b x /\
@@ -212,7 +224,7 @@ Definition valid_block_b (tip : header) (b : block) (p : payload_env) (v : venv)
   let h := b_header b in
   (h_version h =? 2) && (h_height h =? u32 (h_height tip + 1)) && beq (h_prev h) (h_id tip) &&
   (slot_of v (h_timestamp tip) <? slot_of v (h_timestamp h)) && (slot_of v (h_timestamp h) <=? slot_of v (ve_now v)) &&
-  assigned_generator_b v h && ve_sig_ok v && (h_mhp h =? ve_node_mhp v) && negb (ve_contradicting v) && ve_agg_ok v &&
+  assigned_generator_b v h && ve_sig_ok v && (h_mhp h =? ve_node_mhp v) && negb (ve_contradicting v) && agg_commit_ok h v &&
   beq (h_txroot h) (pe_txroot p) && beq (h_assetroot h) (pe_assetroot p) &&
   strictly_sorted (map as_module (b_assets b)) &&
   beq (h_eventroot h) (xe_eventroot x) && beq (h_vhash h) (xe_post_vhash x) && execution_ok_b b x &&
